@@ -694,4 +694,398 @@ theorem trace_inv (L : List LogItem) (hs : Finality.Safe (finOps L)) :
               · cases e; rw [hk] at k; cases k
           · intro x hx; rw [skipCertIn_snoc]; exact Or.inl hx
 
+/-! ### the premise implies `SafeRun` for the parent-ready tracker inside the pool -/
+
+/-- under the safety premise the watermark is genesis or the slot of a finalized block (never an implicitly
+    skipped slot: the slot after it would be decided, too) -/
+theorem first_final {ops : List Finality.Op} (sf : Finality.Safe ops) {t : Finality.Tracker}
+    {evs : List Finality.Event} (ri : Finality.RunInv ops t evs) :
+    t.first = 0 ∨ ∃ h, Finality.Final ops (t.first, h) := by
+  obtain ⟨w1, w2⟩ := ri.watermark sf
+  rcases Nat.eq_zero_or_pos t.first with e | hpos
+  · exact Or.inl e
+  · right
+    rcases w1 t.first hpos (Nat.le_refl _) with hk | hf
+    · exfalso
+      obtain ⟨c, p, hc, hl, h1, h2⟩ := hk
+      apply w2
+      by_cases e : t.first + 1 = c.1
+      · right; exact ⟨c.2, by rw [e]; exact hc⟩
+      · left; exact ⟨c, p, hc, hl, by omega, by omega⟩
+    · exact hf
+
+open ParentReady in
+theorem pruneArgs_itemStep (t : Finality.Tracker) (it : LogItem) :
+    pruneArgs (itemStep t it).2 = [] ∨ pruneArgs (itemStep t it).2 = [(itemStep t it).1.first] := by
+  have key : ∀ op, pruneArgs (finPart t op).2 = [] ∨ pruneArgs (finPart t op).2 = [(finPart t op).1.first] := by
+    intro op
+    unfold finPart
+    cases Finality.step t op with
+    | panic => left; rfl
+    | ok t' ev => right; rfl
+  unfold itemStep
+  cases it with
+  | block b par =>
+    simpa [LogItem.finOp, LogItem.marks, finParts] using key (.parent b par)
+  | cert c =>
+    cases hk : c.kind
+    · simpa [LogItem.finOp, LogItem.marks, finParts, hk, pruneArgs_append, pruneArgs] using key (.notar (c.slot, c.hash))
+    · left; simp [LogItem.finOp, LogItem.marks, finParts, hk, pruneArgs]
+    · left; simp [LogItem.finOp, LogItem.marks, finParts, hk, pruneArgs]
+    · simpa [LogItem.finOp, LogItem.marks, finParts, hk] using key (.fastFinal (c.slot, c.hash))
+    · simpa [LogItem.finOp, LogItem.marks, finParts, hk] using key (.final c.slot)
+
+open ParentReady in
+/-- every prune root of the trace is genesis or the slot of a block that is finalized in the history -/
+theorem roots_final (L : List LogItem) (hs : Finality.Safe (finOps L)) :
+    ∀ r ∈ pruneArgs (prTrace L), r = 0 ∨ ∃ h, Finality.Final (finOps L) (r, h) := by
+  induction L using ParentReady.snoc_induction with
+  | nil => intro r hr; cases hr
+  | snoc L it ih =>
+    have hsub : Finality.Sub (finOps L) (finOps (L ++ [it])) := finOps_sub (fun _ hx => List.mem_append_left _ hx)
+    intro r hr
+    rw [prTrace_snoc, pruneArgs_append, List.mem_append] at hr
+    rcases hr with hr | hr
+    · rcases ih (hs.sub hsub) r hr with e | ⟨h, hf⟩
+      · exact Or.inl e
+      · exact Or.inr ⟨h, hf.mono hsub⟩
+    · rcases pruneArgs_itemStep (finState L) it with e | e
+      · rw [e] at hr; cases hr
+      · rw [e, ← finState_snoc] at hr
+        have : r = (finState (L ++ [it])).first := by simpa using hr
+        obtain ⟨fevs, hrun, _⟩ := trace_inv (L ++ [it]) hs
+        rw [this]
+        exact first_final hs (Finality.runInv_of_run hs hrun)
+
+open ParentReady in
+/-- **The consistency premise implies the premise `SafeRun` of the parent-ready theorems** for the operations the
+    pool performs on its parent-ready tracker: the prune roots are the watermarks of the finality tracker
+    (monotone), each is genesis or the slot of a finalized block, and such a slot is never accepted as a skip mark
+    (not from a skip certificate: premise; not as an implicit skip: a finalized slot is not between a finalized
+    block and its parent). -/
+theorem safeRun_prTrace {L : List LogItem} (hc : Consistent L) : SafeRun (prTrace L) := by
+  obtain ⟨fevs, hrun, ti⟩ := trace_inv L hc.safe
+  refine ⟨hist_mono_of_sorted _ ti.sorted, fun r hr => ?_⟩
+  rcases roots_final L hc.safe r ((hist_roots _).1 r hr) with e | ⟨h, hf⟩
+  · left; rw [e]; decide
+  · right
+    intro hm
+    rcases (ti.sk r).mp hm with ⟨pre, c, hp, hk, hsl, _⟩ | a
+    · have hmem : LogItem.cert c ∈ L := List.IsPrefix.mem (List.mem_append_right _ (List.mem_singleton.mpr rfl)) hp
+      exact hc.skip_not_final c hmem hk h (by rw [hsl]; exact hf)
+    · exact hc.safe.final_not_skip hf ((Finality.runInv_of_run hc.safe hrun).soundS r a)
+
+/-! ### the two trackers inside the pool: projection of the pool operations -/
+
+/-- the tracker part of the pool state -/
+structure Trk where
+  fin : Finality.Tracker
+  pr : ParentReady.Tracker
+  wakes : List ParentReady.Wake
+
+def Pool.trk (p : Pool) : Trk := ⟨p.fin, p.pr, p.wakes⟩
+
+def Trk.applyPr (k : Trk) (r : ParentReady.Res) : Trk :=
+  match r with
+  | none => k
+  | some (pr, _, wk) => { k with pr := pr, wakes := k.wakes ++ wk }
+
+def Trk.handleFin (k : Trk) (r : Finality.Res) : Trk :=
+  match r with
+  | .panic => k
+  | .ok t ev =>
+    let k1 := ({ k with fin := t } : Trk).applyPr (ParentReady.handleFinalization k.pr ev)
+    { k1 with pr := ParentReady.prune k1.pr k1.fin.first }
+
+/-- `add_valid_cert`, as far as the trackers are concerned -/
+def Trk.addValidCert (k : Trk) (c : Cert) : Trk :=
+  match c.kind with
+  | .notar =>
+    let k1 := k.handleFin (Finality.markNotarized k.fin (c.slot, c.hash))
+    k1.applyPr (ParentReady.markNotarFallback k1.pr (c.slot, c.hash))
+  | .nf => k.applyPr (ParentReady.markNotarFallback k.pr (c.slot, c.hash))
+  | .skip => k.applyPr (ParentReady.markSkipped k.pr c.slot)
+  | .ff => k.handleFin (Finality.markFastFinalized k.fin (c.slot, c.hash))
+  | .final => k.handleFin (Finality.markFinalized k.fin c.slot)
+
+/-- one log item, as far as the trackers are concerned -/
+def Trk.item (k : Trk) : LogItem → Trk
+  | .cert c => k.addValidCert c
+  | .block b par => k.handleFin (Finality.addParent k.fin b par)
+
+theorem slotState_trk (p : Pool) (s : Nat) : (p.slotState s).1.trk = p.trk := by
+  unfold Pool.slotState; split <;> rfl
+
+theorem putSlot_trk (p : Pool) (st : SlotState) : (p.putSlot st).trk = p.trk := by
+  unfold Pool.putSlot; split <;> rfl
+
+theorem notifyChildren_trk (p : Pool) (kids : List (Nat × Nat)) (acc : List Event) :
+    (p.notifyChildren kids acc).1.trk = p.trk := by
+  induction kids generalizing p acc with
+  | nil => rfl
+  | cons k ks ih =>
+    obtain ⟨cs, ch⟩ := k
+    unfold Pool.notifyChildren
+    split
+    · exact ih p acc
+    · dsimp only
+      split
+      · exact slotState_trk p cs
+      · rw [ih, putSlot_trk, slotState_trk]
+
+theorem notifyWaiting_trk (p : Pool) (b : Nat × Nat) : (p.notifyWaiting b).1.trk = p.trk := by
+  unfold Pool.notifyWaiting
+  exact notifyChildren_trk _ _ _
+
+theorem addWaiting_trk (p : Pool) (par b : Nat × Nat) : (Pool.addWaiting p par b).trk = p.trk := by
+  unfold Pool.addWaiting; split <;> rfl
+
+theorem addBlockTail_trk (p : Pool) (b par : Nat × Nat) (e0 : List Event) (cert : Bool) :
+    (Pool.addBlockTail p b par e0 cert).1.trk = p.trk := by
+  unfold Pool.addBlockTail
+  split
+  · split
+    · exact slotState_trk p b.1
+    · split
+      · rw [addWaiting_trk, putSlot_trk, slotState_trk]
+      · rw [putSlot_trk, slotState_trk]
+  · exact addWaiting_trk p par b
+
+theorem applyPr_trk (p : Pool) (r : ParentReady.Res) : (p.applyPr r).1.trk = p.trk.applyPr r := by
+  unfold Pool.applyPr Trk.applyPr
+  cases r with
+  | none => rfl
+  | some x => obtain ⟨pr, anns, wk⟩ := x; rfl
+
+theorem prune_trk (p : Pool) : p.prune.trk = { p.trk with pr := ParentReady.prune p.pr p.fin.first } := rfl
+
+theorem handleFin_trk (p : Pool) (r : Finality.Res) : (p.handleFin r).1.trk = p.trk.handleFin r := by
+  unfold Pool.handleFin Trk.handleFin
+  cases r with
+  | panic => rfl
+  | ok t ev =>
+    dsimp only
+    rw [prune_trk]
+    have h := applyPr_trk { p with fin := t } (ParentReady.handleFinalization p.pr ev)
+    have e1 : (({ p with fin := t } : Pool).applyPr (ParentReady.handleFinalization p.pr ev)).1.pr =
+        ((⟨t, p.pr, p.wakes⟩ : Trk).applyPr (ParentReady.handleFinalization p.pr ev)).pr := congrArg Trk.pr h
+    have e2 : (({ p with fin := t } : Pool).applyPr (ParentReady.handleFinalization p.pr ev)).1.fin =
+        ((⟨t, p.pr, p.wakes⟩ : Trk).applyPr (ParentReady.handleFinalization p.pr ev)).fin := congrArg Trk.fin h
+    rw [h, e1, e2]
+    rfl
+
+theorem trk_fin (p : Pool) : p.trk.fin = p.fin := rfl
+theorem trk_pr (p : Pool) : p.trk.pr = p.pr := rfl
+
+/-- **`add_valid_cert` on the trackers**: whatever else the pool holds, the finality tracker, the parent-ready
+    tracker and the wake-ups after `add_valid_cert(c)` are `Trk.addValidCert` of those before. -/
+theorem addValidCert_trk (p : Pool) (c : Cert) : (p.addValidCert c).1.trk = p.trk.addValidCert c := by
+  have h0 : ((p.slotState c.slot).1.putSlot ((p.slotState c.slot).2.addCert c)).trk = p.trk := by
+    rw [putSlot_trk, slotState_trk]
+  unfold Pool.addValidCert Trk.addValidCert
+  dsimp only
+  generalize ((p.slotState c.slot).1.putSlot ((p.slotState c.slot).2.addCert c)) = q at h0 ⊢
+  have hfin : q.fin = p.trk.fin := congrArg Trk.fin h0
+  have hpr : q.pr = p.trk.pr := congrArg Trk.pr h0
+  cases hk : c.kind <;> dsimp only
+  · -- notar
+    simp only [show (CertKind.notar == CertKind.notar) = true from rfl, if_true]
+    rw [hfin]
+    have e : ((q.handleFin (Finality.markNotarized p.trk.fin (c.slot, c.hash))).1.notifyWaiting (c.slot, c.hash)).1.pr =
+        (p.trk.handleFin (Finality.markNotarized p.trk.fin (c.slot, c.hash))).pr := by
+      have := congrArg Trk.pr (notifyWaiting_trk (q.handleFin (Finality.markNotarized p.trk.fin (c.slot, c.hash))).1 (c.slot, c.hash))
+      rw [handleFin_trk, h0] at this
+      exact this
+    rw [applyPr_trk, notifyWaiting_trk, handleFin_trk, h0, e]
+  · -- nf
+    simp only [show (CertKind.nf == CertKind.notar) = false from rfl, Bool.false_eq_true, if_false]
+    rw [applyPr_trk, notifyWaiting_trk, h0]
+    have : (q.notifyWaiting (c.slot, c.hash)).1.pr = p.trk.pr := by
+      have := congrArg Trk.pr (notifyWaiting_trk q (c.slot, c.hash))
+      rw [h0] at this; exact this
+    rw [this]
+  · -- skip
+    rw [applyPr_trk, h0, hpr]
+  · -- ff
+    rw [notifyWaiting_trk, handleFin_trk, h0, hfin]
+  · -- final
+    rw [handleFin_trk, h0, hfin]
+
+/-- **`add_block` on the trackers** (when the block's slot is above its parent's; otherwise the call panics
+    and changes nothing) -/
+theorem addBlock_trk (p : Pool) (b par : Nat × Nat) (hlt : par.1 < b.1) :
+    (p.addBlock b par).1.trk = p.trk.handleFin (Finality.addParent p.fin b par) := by
+  unfold Pool.addBlock
+  rw [if_neg (by omega)]
+  have hh := handleFin_trk p (Finality.addParent p.fin b par)
+  unfold Pool.handleFin at hh
+  cases hr : Finality.addParent p.fin b par with
+  | panic => rfl
+  | ok t ev =>
+    rw [hr] at hh
+    dsimp only at hh ⊢
+    split
+    · exact hh
+    · rw [addBlockTail_trk, putSlot_trk, slotState_trk]
+      exact hh
+
+/-! ### the log is observable: `CertCreated` events -/
+
+/-- events that neither announce a certificate nor a ready parent -/
+def Event.quiet : Event → Bool
+  | .s2n _ _ => true
+  | .s2s _ => true
+  | .repair _ _ => true
+  | .panic => true
+  | .standstill _ _ _ => true
+  | .cert _ => false
+  | .parentReady _ _ _ => false
+
+def Quiet (evs : List Event) : Prop := ∀ e ∈ evs, e.quiet = true
+
+theorem Quiet.nil : Quiet [] := fun _ h => by cases h
+theorem Quiet.append {a b : List Event} (ha : Quiet a) (hb : Quiet b) : Quiet (a ++ b) :=
+  fun e he => (List.mem_append.mp he).elim (ha e) (hb e)
+
+/-- the `CertCreated` events of an event list, as log items -/
+def certsOf (evs : List Event) : List LogItem := evs.filterMap (fun | .cert c => some (.cert c) | _ => none)
+
+theorem certsOf_append (a b : List Event) : certsOf (a ++ b) = certsOf a ++ certsOf b := by
+  unfold certsOf; rw [List.filterMap_append]
+
+theorem certsOf_quiet {evs : List Event} (h : Quiet evs) : certsOf evs = [] := by
+  unfold certsOf
+  rw [List.filterMap_eq_nil_iff]
+  intro e he
+  have := h e he
+  cases e <;> first | rfl | (simp [Event.quiet] at this)
+
+theorem certsOf_prEvents (anns : List (Nat × (Nat × Nat))) : certsOf (prEvents anns) = [] := by
+  unfold certsOf prEvents
+  rw [List.filterMap_eq_nil_iff]
+  intro e he
+  obtain ⟨a, _, rfl⟩ := List.mem_map.mp he
+  rfl
+
+theorem s2nOut_quiet (slot h : Nat) (r : S2N) : Quiet (s2nOut slot h r) := by
+  intro e he
+  cases r <;> simp [s2nOut] at he <;> subst he <;> rfl
+
+theorem recheckPending_quiet (e : Epoch) (st : SlotState) (hs : List Nat) (acc : List Event) (ha : Quiet acc) :
+    Quiet (SlotState.recheckPending e st hs acc).2 := by
+  induction hs generalizing st acc with
+  | nil => exact ha
+  | cons h hs ih =>
+    unfold SlotState.recheckPending
+    split
+    · exact ih _ _ ha
+    · exact ih _ _ (ha.append (s2nOut_quiet _ _ _))
+
+theorem s2sCheck_quiet (e : Epoch) (st : SlotState) : Quiet (st.s2sCheck e).2 := by
+  unfold SlotState.s2sCheck
+  split
+  · intro x hx; simp at hx; subst hx; rfl
+  · exact Quiet.nil
+
+theorem countNotar_quiet (e : Epoch) (st : SlotState) (h stake : Nat) : Quiet (SlotState.countNotar e st h stake).2.2 := by
+  unfold SlotState.countNotar
+  dsimp only
+  split
+  · exact (s2nOut_quiet _ _ _).append (s2sCheck_quiet _ _)
+  · exact Quiet.nil.append (s2sCheck_quiet _ _)
+
+theorem countSkip_quiet (e : Epoch) (st : SlotState) (stake : Nat) (fb : Bool) :
+    Quiet (SlotState.countSkip e st stake fb).2.2 := by
+  unfold SlotState.countSkip
+  dsimp only
+  exact (recheckPending_quiet _ _ _ _ Quiet.nil).append (s2sCheck_quiet _ _)
+
+theorem countNf_quiet (e : Epoch) (st : SlotState) (h stake : Nat) : Quiet (SlotState.countNf e st h stake).2.2 :=
+  Quiet.nil
+
+theorem countFin_quiet (e : Epoch) (st : SlotState) (stake : Nat) : Quiet (SlotState.countFin e st stake).2.2 :=
+  Quiet.nil
+
+/-- the per-slot `add_vote` emits only safe-to-notar / safe-to-skip / repair events -/
+theorem slot_addVote_quiet (e : Epoch) (st : SlotState) (v : Vote) : Quiet (st.addVote e v).2.2 := by
+  unfold SlotState.addVote
+  dsimp only
+  cases hk : v.kind <;> dsimp only
+  · split
+    · exact (countNotar_quiet _ _ _ _).append (recheckPending_quiet _ _ _ _ Quiet.nil)
+    · exact countNotar_quiet _ _ _ _
+  · split
+    · exact (countNf_quiet _ _ _ _).append (recheckPending_quiet _ _ _ _ Quiet.nil)
+    · exact countNf_quiet _ _ _ _
+  · split
+    · exact (countSkip_quiet _ _ _ _).append (recheckPending_quiet _ _ _ _ Quiet.nil)
+    · exact countSkip_quiet _ _ _ _
+  · split
+    · exact (countSkip_quiet _ _ _ _).append (recheckPending_quiet _ _ _ _ Quiet.nil)
+    · exact countSkip_quiet _ _ _ _
+  · split
+    · exact (countFin_quiet _ _ _).append (recheckPending_quiet _ _ _ _ Quiet.nil)
+    · exact countFin_quiet _ _ _
+
+theorem notifyParentCertified_quiet (e : Epoch) (st : SlotState) (h : Nat) (st' : SlotState) (evs : List Event)
+    (hn : st.notifyParentCertified e h = some (st', evs)) : Quiet evs := by
+  unfold SlotState.notifyParentCertified at hn
+  split at hn
+  · cases hn
+  · dsimp only at hn
+    split at hn
+    · cases hn; exact Quiet.nil
+    · cases hn; exact s2nOut_quiet _ _ _
+
+theorem notifyChildren_quiet (p : Pool) (kids : List (Nat × Nat)) (acc : List Event) (ha : Quiet acc) :
+    Quiet (p.notifyChildren kids acc).2 := by
+  induction kids generalizing p acc with
+  | nil => exact ha
+  | cons k ks ih =>
+    obtain ⟨cs, ch⟩ := k
+    unfold Pool.notifyChildren
+    split
+    · exact ih p acc ha
+    · dsimp only
+      split
+      · exact ha.append (fun x hx => by simp at hx; subst hx; rfl)
+      · rename_i st' evs hn
+        exact ih _ _ (ha.append (notifyParentCertified_quiet _ _ _ _ _ hn))
+
+theorem notifyWaiting_quiet (p : Pool) (b : Nat × Nat) : Quiet (p.notifyWaiting b).2 := by
+  unfold Pool.notifyWaiting
+  exact notifyChildren_quiet _ _ _ Quiet.nil
+
+theorem certsOf_applyPr (p : Pool) (r : ParentReady.Res) : certsOf (p.applyPr r).2 = [] := by
+  unfold Pool.applyPr
+  cases r with
+  | none => rfl
+  | some x => obtain ⟨pr, anns, wk⟩ := x; exact certsOf_prEvents anns
+
+theorem certsOf_handleFin (p : Pool) (r : Finality.Res) : certsOf (p.handleFin r).2 = [] := by
+  unfold Pool.handleFin
+  cases r with
+  | panic => rfl
+  | ok t ev => exact certsOf_applyPr _ _
+
+/-- **`add_valid_cert(c)` announces exactly `c`** (`CertCreated`) -/
+theorem certsOf_addValidCert (p : Pool) (c : Cert) : certsOf (p.addValidCert c).2 = [.cert c] := by
+  unfold Pool.addValidCert
+  dsimp only
+  generalize ((p.slotState c.slot).1.putSlot ((p.slotState c.slot).2.addCert c)) = q
+  rw [certsOf_append]
+  have hlast : certsOf [Event.cert c] = [LogItem.cert c] := rfl
+  have hrep : certsOf [Event.repair c.slot c.hash] = [] := rfl
+  rw [hlast]
+  cases hk : c.kind <;> dsimp only
+  · simp only [show (CertKind.notar == CertKind.notar) = true from rfl, if_true]
+    rw [certsOf_append, certsOf_append, certsOf_append, certsOf_handleFin, certsOf_quiet (notifyWaiting_quiet _ _),
+      certsOf_applyPr, hrep]; rfl
+  · simp only [show (CertKind.nf == CertKind.notar) = false from rfl, Bool.false_eq_true, if_false]
+    rw [certsOf_append, certsOf_append, certsOf_append, certsOf_quiet (notifyWaiting_quiet _ _),
+      certsOf_applyPr, hrep]; rfl
+  · rw [certsOf_applyPr]; rfl
+  · rw [certsOf_append, certsOf_handleFin, certsOf_quiet (notifyWaiting_quiet _ _)]; rfl
+  · rw [certsOf_handleFin]; rfl
+
 end AgModel.Pool
